@@ -1,10 +1,112 @@
 import CsVerif.Gen.PyBeacon
 import CsVerif.Props.C03
 import CsVerif.Lemmas.C03Gen
-/-! C03 — the tie between the source text and the model, by (untyped) translation. -/
+/-!
+C03 — the tie between the source text and the model, by (untyped) translation.
+
+`Gen/PyBeacon.lean` is produced on every run by `tools/py2leanu.py` from the *source* of `beacon.null_terminated_bytes`,
+`null_terminated_str`, `parse_pivot_frame`, `parse_process_injection_transform_steps`, `parse_gargle`,
+`parse_recover_binary`, `parse_transform_binary` and `parse_execute_list`: every Python value is a `PyU.V`, every Python
+operation one total function of `lean/CsVerif/Model/PyU.lean`, every `while` loop a `PyU.whileFuel` over a separate
+loop-body definition.  The theorems below state that each translated definition computes, for every `bytes` argument
+(and every fuel above the length of the argument), exactly the encoding (`enc*`, Lemmas/C03Gen.lean) of what the
+hand-written model of `Model/C03.lean` computes — including the raising branches of `parse_execute_list`.  So every
+theorem of `Props/C03.lean` about these decoders is a theorem about the function text as it stands now, and an edit of
+one of these functions that changes its meaning breaks the corresponding proof here.  Helper lemmas: `Lemmas/C03Gen.lean`.
+-/
 namespace C03Gen
 open PyU
 
+/-! ### strings and frames (no loops) -/
+
+/-- `null_terminated_bytes(data)` = the bytes before the first NUL -/
+theorem gen_null_terminated_bytes (data : Bytes) :
+    Gen.PyBeacon.null_terminated_bytes (.bytes data) = .ok (.bytes (C03.nullTerminatedBytes data)) :=
+  gen_null_terminated_bytes_proof data
+
+/-- `null_terminated_str(data)`: the same bytes as a latin-1 `str` (one code point per byte) -/
+theorem gen_null_terminated_str (data : Bytes) :
+    Gen.PyBeacon.null_terminated_str (.bytes data) = .ok (encLatin (C03.nullTerminatedStr data)) :=
+  gen_null_terminated_str_proof data
+
+theorem gen_parse_pivot_frame (data : Bytes) :
+    Gen.PyBeacon.parse_pivot_frame (.bytes data) = .ok (.bytes (C03.parsePivot data)) :=
+  gen_parse_pivot_frame_proof data
+
+/-- a list of `(name, bytes)` tuples -/
+theorem gen_parse_process_injection_transform_steps (data : Bytes) :
+    Gen.PyBeacon.parse_process_injection_transform_steps (.bytes data)
+      = .ok (.list ((C03.parseInjTransform data).map encInj)) :=
+  gen_parse_process_injection_transform_steps_proof data
+
+/-! ### the `while True:` decoders: for every fuel above the length of the input -/
+
+/-- a list of `str` -/
+theorem gen_parse_gargle (fuel : Nat) (data : Bytes) (h : data.length < fuel) :
+    Gen.PyBeacon.parse_gargle fuel (.bytes data) = .ok (.list ((C03.parseGargle data).map lit)) :=
+  gen_parse_gargle_proof fuel data h
+
+/-- a list of `(name, int | True)` tuples; unknown steps (logged by the source) contribute nothing -/
+theorem gen_parse_recover_binary (fuel : Nat) (data : Bytes) (h : data.length < fuel) :
+    Gen.PyBeacon.parse_recover_binary fuel (.bytes data) = .ok (.list ((C03.parseRecover data).map encROut)) :=
+  gen_parse_recover_binary_proof fuel data h
+
+/-- a list of `(name | None, str | True | bytes)` tuples, for every `build` string; never raises (the `IndexError` branch of
+the source is dead) -/
+theorem gen_parse_transform_binary (fuel : Nat) (data : Bytes) (build : String) (h : data.length < fuel) :
+    Gen.PyBeacon.parse_transform_binary fuel (.bytes data) (lit build)
+      = .ok (.list ((C03.parseTransform build data).map encTOut)) :=
+  gen_parse_transform_binary_proof fuel data build h
+
+/-- the call without `build` (as registered for `SETTING_C2_REQUEST`): the default in the source is `"metadata"` -/
+theorem gen_parse_transform_binary_default (fuel : Nat) (data : Bytes) (h : data.length < fuel) :
+    Gen.PyBeacon.parse_transform_binary_default1 fuel (.bytes data)
+      = .ok (.list ((C03.parseTransform "metadata" data).map encTOut)) := by
+  unfold Gen.PyBeacon.parse_transform_binary_default1
+  exact gen_parse_transform_binary fuel data "metadata" h
+
+/-- a list of `str | None`, or the model's exception (UnicodeDecodeError ⊂ ValueError from `bytes.decode()`,
+AttributeError from `None.rstrip` for an undefined opcode) -/
+theorem gen_parse_execute_list (fuel : Nat) (data : Bytes) (h : data.length < fuel) :
+    Gen.PyBeacon.parse_execute_list fuel (.bytes data)
+      = (C03.parseExecute data).map fun l => .list (l.map encEx) :=
+  gen_parse_execute_list_proof fuel data h
+
+/-! ### arguments that are not `bytes`: `io.BytesIO(None)` is an empty stream, so `None` decodes like `b""` -/
+
+theorem gen_none_argument (fuel : Nat) :
+    Gen.PyBeacon.parse_pivot_frame .none = Gen.PyBeacon.parse_pivot_frame (.bytes []) ∧
+    Gen.PyBeacon.parse_process_injection_transform_steps .none
+      = Gen.PyBeacon.parse_process_injection_transform_steps (.bytes []) ∧
+    Gen.PyBeacon.parse_gargle fuel .none = Gen.PyBeacon.parse_gargle fuel (.bytes []) ∧
+    Gen.PyBeacon.parse_recover_binary fuel .none = Gen.PyBeacon.parse_recover_binary fuel (.bytes []) ∧
+    (∀ build, Gen.PyBeacon.parse_transform_binary fuel .none build
+      = Gen.PyBeacon.parse_transform_binary fuel (.bytes []) build) ∧
+    Gen.PyBeacon.parse_execute_list fuel .none = Gen.PyBeacon.parse_execute_list fuel (.bytes []) :=
+  ⟨rfl, rfl, rfl, rfl, fun _ => rfl, rfl⟩
+
+/-! ### Non-vacuity: the translated definitions evaluated on concrete inputs -/
+
+example : Gen.PyBeacon.null_terminated_bytes (.bytes [72, 105, 0, 0, 66]) = .ok (.bytes [72, 105]) := by decide
+example : Gen.PyBeacon.null_terminated_str (.bytes [72, 255, 0, 66]) = .ok (.str [72, 255]) := by decide
+example : Gen.PyBeacon.null_terminated_bytes .none = .error .attributeError := by decide
 example : Gen.PyBeacon.parse_pivot_frame (.bytes [0, 6, 65, 66, 67]) = .ok (.bytes [65, 66]) := by decide
+example : Gen.PyBeacon.parse_pivot_frame (.bytes [0, 3, 65, 66, 67]) = .ok (.bytes [65, 66, 67]) := by decide
+example : Gen.PyBeacon.parse_pivot_frame (.int 5) = .error .typeError := by decide
+example : Gen.PyBeacon.parse_process_injection_transform_steps (.bytes [0, 0, 0, 1, 144, 0, 0, 0, 2, 65, 66])
+    = .ok (.list [.tuple [lit "append", .bytes [144]], .tuple [lit "prepend", .bytes [65, 66]]]) := by decide
+example : Gen.PyBeacon.parse_gargle 10 (.bytes [1, 0, 0, 0, 255, 0, 0, 0]) = .ok (.list [lit "0x1-0xff"]) := by decide +kernel
+example : Gen.PyBeacon.parse_gargle 2 (.bytes [1, 0, 0, 0, 2, 0, 0, 0, 3, 0, 0, 0, 4, 0, 0, 0]) = .error .timeoutDiverge := by
+  decide +kernel
+example : Gen.PyBeacon.parse_recover_binary 20 (.bytes [0, 0, 0, 1, 0, 0, 1, 0, 0, 0, 0, 3, 0, 0, 0, 99, 0, 0, 0, 0, 7])
+    = .ok (.list [.tuple [lit "append", .int 256], .tuple [lit "base64", .bool true]]) := by decide +kernel
+example : Gen.PyBeacon.parse_transform_binary 20 (.bytes [0, 0, 0, 7, 0, 0, 0, 0, 0, 0, 0, 3, 0, 0, 0, 1, 0, 0, 0, 1, 65])
+      (lit "metadata")
+    = .ok (.list [.tuple [lit "BUILD", lit "metadata"], .tuple [lit "BASE64", .bool true],
+        .tuple [lit "APPEND", .bytes [65]]]) := by decide +kernel
+example : Gen.PyBeacon.parse_execute_list 30 (.bytes [1, 6, 0, 33, 0, 0, 0, 2, 109, 0, 0, 0, 0, 1, 102, 9])
+    = .ok (.list [lit "CreateThread", lit "CreateThread \"m!f+0x21\"", .none]) := by decide +kernel
+example : Gen.PyBeacon.parse_execute_list 30 (.bytes [7, 0, 0, 0, 0, 0, 1, 255, 0, 0, 0, 0]) = .error .valueError := by decide +kernel
+example : Gen.PyBeacon.parse_execute_list 30 (.bytes [9, 6, 0]) = .ok (.list [.none, lit "CreateThread \"!\""]) := by decide +kernel
 
 end C03Gen
